@@ -12,6 +12,7 @@ import (
 	"encoding/hex"
 	"encoding/json"
 	"fmt"
+	"math"
 	"math/big"
 	"strconv"
 	"strings"
@@ -30,13 +31,30 @@ type val struct {
 	Z    *big.Int // K == 'z'
 	L    []byte   // K == 'l'
 	S, N int64    // K == 't': Unix(), Nanosecond()
+	Loc  string   // K == 't': "" (Local, as time.Unix gives it) | "utc" | "+08:00" | "zero" (the zero time.Time literal)
+}
+
+// inLoc builds the instant in the requested location; "zero" is the literal time.Time{} (only for Unix() = -62135596800, nsec 0)
+func inLoc(sec, nsec int64, loc string) time.Time {
+	t := time.Unix(sec, nsec)
+	switch loc {
+	case "utc":
+		return t.UTC()
+	case "+08:00":
+		return t.In(time.FixedZone("+08:00", 8*3600))
+	case "zero":
+		if sec == -62135596800 && nsec == 0 {
+			return time.Time{}
+		}
+	}
+	return t
 }
 
 func vz(i int64) val      { return val{K: 'z', Z: big.NewInt(i)} }
 func vu(u uint64) val     { return val{K: 'z', Z: new(big.Int).SetUint64(u)} }
 func vl(b []byte) val     { return val{K: 'l', L: append([]byte{}, b...)} }
 func vt(t time.Time) val  { return val{K: 't', S: t.Unix(), N: int64(t.Nanosecond())} }
-func (v val) time() time.Time { return time.Unix(v.S, v.N) }
+func (v val) time() time.Time { return inLoc(v.S, v.N, v.Loc) }
 
 type res struct {
 	Kind int // 0 ok, 1 err, 2 panic
@@ -100,6 +118,9 @@ func jval(v val) interface{} {
 		}
 		return map[string]interface{}{"bytes": l}
 	}
+	if v.Loc != "" {
+		return map[string]interface{}{"unix": v.S, "nsec": v.N, "location": v.Loc}
+	}
 	return map[string]interface{}{"unix": v.S, "nsec": v.N}
 }
 func jres(r res) interface{} {
@@ -121,7 +142,9 @@ type holder[T any] struct {
 var jiter = jsoniter.ConfigCompatibleWithStandardLibrary
 
 // the five ways a token reaches UnmarshalJSON
-var pathNames = []string{"direct", "std-top", "std-field", "iter-top", "iter-field"}
+// (paths 5..9 are the same five with the receiver holding a second, different non-zero value beforehand)
+var pathNames = []string{"direct", "std-top", "std-field", "iter-top", "iter-field",
+	"direct/receiver2", "std-top/receiver2", "std-field/receiver2", "iter-top/receiver2", "iter-field/receiver2"}
 
 type jtype struct {
 	coq    string
@@ -138,16 +161,19 @@ var jsonEntries = []string{"MarshalJSON", "json.Marshal", "jsoniter.Marshal", "j
 func mkJ[T any, PT interface {
 	*T
 	json.Unmarshaler
-}](coq string, sentinel T, toVal func(T) val, fromVal func(val) T, marshal func(T) ([]byte, error)) *jtype {
+}](coq string, sentinel T, sentinel2 T, toVal func(T) val, fromVal func(val) T, marshal func(T) ([]byte, error)) *jtype {
 	field := func(tok []byte) []byte { return []byte(`{"v":` + string(tok) + `}`) }
 	return &jtype{
 		coq: coq,
 		decode: func(path int, tok []byte) res {
 			return guard(func() res {
 				x := sentinel
-				h := holder[T]{V: sentinel}
+				if path >= 5 {
+					x = sentinel2
+				}
+				h := holder[T]{V: x}
 				var err error
-				switch path {
+				switch path % 5 {
 				case 0:
 					err = PT(&x).UnmarshalJSON(append([]byte{}, tok...))
 				case 1:
@@ -230,19 +256,19 @@ func delivered(tok []byte) [5][]byte {
 }
 
 var jtypes = map[string]*jtype{
-	"JI64": mkJ[tex.JsInt64]("JI64", 7777, func(x tex.JsInt64) val { return vz(int64(x)) },
+	"JI64": mkJ[tex.JsInt64]("JI64", 7777, math.MinInt64, func(x tex.JsInt64) val { return vz(int64(x)) },
 		func(v val) tex.JsInt64 { return tex.JsInt64(v.Z.Int64()) }, func(x tex.JsInt64) ([]byte, error) { return x.MarshalJSON() }),
-	"JU64": mkJ[tex.JsUInt64]("JU64", 7777, func(x tex.JsUInt64) val { return vu(uint64(x)) },
+	"JU64": mkJ[tex.JsUInt64]("JU64", 7777, math.MaxUint64, func(x tex.JsUInt64) val { return vu(uint64(x)) },
 		func(v val) tex.JsUInt64 { return tex.JsUInt64(v.Z.Uint64()) }, func(x tex.JsUInt64) ([]byte, error) { return x.MarshalJSON() }),
-	"JUnixTime": mkJ[tex.JsUnixTime]("JUnixTime", tex.JsUnixTime(time.Unix(7777, 7)), func(x tex.JsUnixTime) val { return vt(time.Time(x)) },
+	"JUnixTime": mkJ[tex.JsUnixTime]("JUnixTime", tex.JsUnixTime(time.Unix(7777, 7)), tex.JsUnixTime(time.Unix(-5, 5).UTC()), func(x tex.JsUnixTime) val { return vt(time.Time(x)) },
 		func(v val) tex.JsUnixTime { return tex.JsUnixTime(v.time()) }, func(x tex.JsUnixTime) ([]byte, error) { return x.MarshalJSON() }),
-	"JNanoTime": mkJ[tex.JsNanoTime]("JNanoTime", tex.JsNanoTime(time.Unix(7777, 7)), func(x tex.JsNanoTime) val { return vt(time.Time(x)) },
+	"JNanoTime": mkJ[tex.JsNanoTime]("JNanoTime", tex.JsNanoTime(time.Unix(7777, 7)), tex.JsNanoTime(time.Unix(-5, 5).UTC()), func(x tex.JsNanoTime) val { return vt(time.Time(x)) },
 		func(v val) tex.JsNanoTime { return tex.JsNanoTime(v.time()) }, func(x tex.JsNanoTime) ([]byte, error) { return x.MarshalJSON() }),
-	"JStamp": mkJ[tex.UnixStamp]("JStamp", 7777, func(x tex.UnixStamp) val { return vz(int64(x)) },
+	"JStamp": mkJ[tex.UnixStamp]("JStamp", 7777, -1, func(x tex.UnixStamp) val { return vz(int64(x)) },
 		func(v val) tex.UnixStamp { return tex.UnixStamp(v.Z.Int64()) }, func(x tex.UnixStamp) ([]byte, error) { return x.MarshalJSON() }),
-	"JDur": mkJ[tex.Duration]("JDur", 7777, func(x tex.Duration) val { return vz(int64(x)) },
+	"JDur": mkJ[tex.Duration]("JDur", 7777, -1, func(x tex.Duration) val { return vz(int64(x)) },
 		func(v val) tex.Duration { return tex.Duration(v.Z.Int64()) }, func(x tex.Duration) ([]byte, error) { return x.MarshalJSON() }),
-	"JByte": mkJ[tex.JsByte]("JByte", tex.JsByte{77, 77}, func(x tex.JsByte) val { return vl(x) },
+	"JByte": mkJ[tex.JsByte]("JByte", tex.JsByte{77, 77}, tex.JsByte{1}, func(x tex.JsByte) val { return vl(x) },
 		func(v val) tex.JsByte { return tex.JsByte(append([]byte{}, v.L...)) }, func(x tex.JsByte) ([]byte, error) { return x.MarshalJSON() }),
 }
 var jorder = []string{"JI64", "JU64", "JUnixTime", "JNanoTime", "JStamp", "JDur", "JByte"}
@@ -271,6 +297,7 @@ type jv struct {
 	Unix  int64  `json:"unix,omitempty"`
 	Nsec  int64  `json:"nsec,omitempty"`
 	IsT   bool   `json:"ist,omitempty"`
+	Loc   string `json:"loc,omitempty"`
 }
 
 func toJV(v val) jv {
@@ -284,7 +311,7 @@ func toJV(v val) jv {
 		}
 		return jv{Bytes: l, IsL: true}
 	}
-	return jv{Unix: v.S, Nsec: v.N, IsT: true}
+	return jv{Unix: v.S, Nsec: v.N, IsT: true, Loc: v.Loc}
 }
 func (j jv) val() val {
 	switch {
@@ -295,7 +322,7 @@ func (j jv) val() val {
 		}
 		return val{K: 'l', L: b}
 	case j.IsT:
-		return val{K: 't', S: j.Unix, N: j.Nsec}
+		return val{K: 't', S: j.Unix, N: j.Nsec, Loc: j.Loc}
 	}
 	z, _ := new(big.Int).SetString(j.Int, 10)
 	if z == nil {
@@ -311,6 +338,7 @@ type sqlArg struct {
 	Hex  string `json:"hex,omitempty"` // bytes / string
 	Unix int64  `json:"unix,omitempty"`
 	Nsec int64  `json:"nsec,omitempty"`
+	Loc  string `json:"loc,omitempty"` // time: location, see inLoc
 }
 
 func (a sqlArg) goValue() interface{} {
@@ -345,7 +373,7 @@ func (a sqlArg) goValue() interface{} {
 	case "bool":
 		return z.Sign() != 0
 	case "time":
-		return time.Unix(a.Unix, a.Nsec)
+		return inLoc(a.Unix, a.Nsec, a.Loc)
 	case "bytes":
 		return b
 	case "string":
@@ -373,7 +401,7 @@ func (a sqlArg) coq() string {
 	case "uint":
 		return "(SUint " + cz(z) + ")"
 	case "time":
-		t := time.Unix(a.Unix, a.Nsec)
+ 		t := inLoc(a.Unix, a.Nsec, a.Loc)
 		return "(STime " + vh.CoqZ(t.Unix()) + " " + vh.CoqZ(int64(t.Nanosecond())) + ")"
 	case "bytes":
 		return "(SBytes " + cbytes(b) + ")"
@@ -566,8 +594,8 @@ func (r *runner) run(in input) {
 			names []string
 		}
 		var groups []*grp
-		for path := 0; path <= 4; path++ {
-			if del[path] == nil {
+		for path := 0; path <= 9; path++ {
+			if del[path%5] == nil {
 				r.libSkips[pathNames[path]]++
 				continue
 			}
@@ -575,12 +603,12 @@ func (r *runner) run(in input) {
 			r.paths[pathNames[path]]++
 			var g *grp
 			for _, x := range groups {
-				if string(x.b) == string(del[path]) {
+				if string(x.b) == string(del[path%5]) {
 					g = x
 				}
 			}
 			if g == nil {
-				g = &grp{b: del[path]}
+				g = &grp{b: del[path%5]}
 				groups = append(groups, g)
 			}
 			g.obs = append(g.obs, o)
